@@ -101,7 +101,7 @@ def runForest (j : Json) : R (Json × Json) := do
   let fl ← (do let s ← getStr j "fl"; if s == "light" then pure Flavor.light else pure Flavor.nm)
   let asrt ← getBool j "asrt"
   let n0 ← getNat j "n0"
-  let fuel ← (getNat j "fuel" <|> pure 64)
+  let fuelOpt : Option Nat ← (some <$> getNat j "fuel") <|> pure none
   let lv ← (getNat j "loglevel" <|> pure 2)
   let ops ← getArr j "ops"
   let mut s : Forest := { Forest.empty with n := n0 }
@@ -110,6 +110,14 @@ def runForest (j : Json) : R (Json × Json) := do
   for oj in ops do
     let op ← opOfJson oj
     let φ ← faultsOfJson oj
+    -- a fuel above `s.n + B + 5` (B = one more than the last scheduled one-shot counter) is never the reason for an
+    -- outcome (`C01d.fuel_suffices_faults`); persistent fault classes diverge under every fuel (finding K4)
+    let bound : Nat ← (do
+      let f ← getField oj "faults"
+      if f.isNull then pure 0 else (do
+        let at_ ← (getNatList f "at" <|> pure [])
+        pure (at_.foldl (fun a b => max a (b + 1)) 0))) <|> pure 0
+    let fuel := fuelOpt.getD (max 64 (s.n + bound + 8))
     let out := exec ⟨fl, asrt, φ⟩ fuel op s
     let sp := Spec.runFaulty fl φ s op
     ms := ms.push (Json.mkObj [("res", resJ out.res), ("snap", snapJ out.f.snap), ("log", logJ lv out.log)])
